@@ -93,6 +93,7 @@ func plan(seed int64, tier string) []vrt.Case {
 	}{
 		{"symlink", []string{"ProcessInbound-dup", "ProcessInbound-replace", "AddOut-replace", "SetSent", "SetUnread-true", "SetUnread-false"}},
 		{"upperext", []string{"ProcessInbound-dup", "ProcessInbound-replace", "AddOut-replace"}},
+		{"hardlink", []string{"ProcessInbound-dup", "ProcessInbound-replace", "AddOut-replace", "SetSent", "SetUnread-true", "SetUnread-false"}},
 		{"dangling", []string{"ProcessInbound-new", "AddOut-new"}},
 	} {
 		for _, op := range v.ops {
